@@ -220,6 +220,10 @@ def match_known(known, prop, clause, ctxinfo):
 
 # ---------------------------------------------------------------------------------------------
 def write_evidence(prop, tier, seed, level, coverage, wall, violations, assumptions):
+    global EVID
+    if os.environ.get("VERIF_NO_EVIDENCE"):
+        # runs against deliberately broken trees (seeded changes) must not touch committed evidence
+        EVID = os.path.join(VERIF, "work", "evidence_scratch")
     os.makedirs(EVID, exist_ok=True)
     ev = {
         "property_id": prop, "tier": tier, "seed": seed, "level": level,
